@@ -92,6 +92,30 @@ def build_cases(ctx):
                     lines += gendoc.Stmt('assign', 60).render()
                 cases.append(dict(name='helper_%s' % hname, doc='\n'.join(lines), fail_line=fail_line, exc='IndexError',
                                   kind='exception', pos=pos, shape='helper'))
+    # random surroundings: programs of the C01 statement grammar (every output matched by a correct want, so that the
+    # failing block meets an empty buffer) in front of and behind a failing block
+    nb = len(names)
+    for n in range(150 if quick else 3000):
+        before = [gendoc.Stmt(rng.choice(gendoc.ALL_KINDS), 10 + i) for i in range(rng.randint(0, 4))]
+        after = [gendoc.Stmt(rng.choice(gendoc.ALL_KINDS), 60 + i) for i in range(rng.randint(0, 3))]
+        style = rng.choice(['ps1', 'ps2'])
+        def lay(stmts):
+            out = []
+            for j, st in enumerate(stmts):
+                out += st.render(style, 0)
+                cw = gendoc.correct_wants(stmts, j, j)
+                if st.out or (st.is_expr and st.val is not None):
+                    out += (cw.get('all') or cw.get('repr') or '').split('\n') if (cw.get('all') or cw.get('repr')) else []
+                elif rng.random() < 0.2:
+                    out.append('')
+            return out
+        bl = lay(before)
+        name, src, want, rel, exc, kind = failing_blocks(30)[rng.randrange(nb)]
+        if name == 'bad_directive_lazy' and not bl:
+            bl = ['>>> t(9)']
+        lines = bl + src + want + lay(after)
+        cases.append(dict(name=name, doc='\n'.join(lines), fail_line=len(bl) + rel, exc=exc, kind=kind,
+                          pos='random', shape='random'))
     return cases
 
 
